@@ -141,6 +141,144 @@ def gen_bytestring_cases(rng, small, thorough):
     return cases
 
 
+# ---- streaming / buffered code paths: lengths around the multiples of their fixed internal buffers
+def buffer_sizes():
+    """the sizes of the fixed internal buffers, read from the sources of the tree under test (the values of the
+    pinned tree, also listed as Codec!StreamBuffers, are the fallback)"""
+    import math
+    res = {"b64decode": {2964}, "b64encode": {3072, 2048}, "qpline": {76}, "jsonstring": {128}, "derived": []}
+
+    def src(rel):
+        try:
+            return open(os.path.join(vlib.REPO, rel)).read()
+        except OSError:
+            return ""
+    b = src("lib/chibi/base64.scm")
+    names = {}
+    m = re.search(r"\(define decode-src-length\s*\(lcm (\d+) (\d+)\)\)", b)
+    if m:
+        names["decode-src-length"] = math.lcm(int(m.group(1)), int(m.group(2)))
+    m = re.search(r"\(define encode-src-length\s*\(\* (\d+) (\d+)\)\)", b)
+    if m:
+        names["encode-src-length"] = int(m.group(1)) * int(m.group(2))
+    for m in re.finditer(r"\(read-bytevector! src in (\S+) ([a-z0-9-]+)\)", b):
+        v = names.get(m.group(2)) or (int(m.group(2)) if m.group(2).isdigit() else None)
+        if v:
+            res["b64decode" if m.group(1) == "offset" else "b64encode"].add(v)
+            res["derived"].append("base64.scm read-bytevector! %s = %d" % (m.group(2), v))
+    m = re.search(r"#define INIT_STRING_BUFFER_SIZE (\d+)", src("lib/chibi/json.c"))
+    if m:
+        res["jsonstring"].add(int(m.group(1)))
+        res["derived"].append("json.c INIT_STRING_BUFFER_SIZE = %s" % m.group(1))
+    m = re.search(r"\(define \*default-max-col\* (\d+)\)", src("lib/chibi/quoted-printable.scm"))
+    if m:
+        res["qpline"].add(int(m.group(1)))
+        res["derived"].append("quoted-printable.scm *default-max-col* = %s" % m.group(1))
+    return res
+
+
+B64_SKIP = b" \t!.:"
+
+
+def b64_text(rng, L, wrap, eol, padded, shift, inter, r3):
+    """a base64 text of exactly L characters: data of length = r3 mod 3, wrapped at `wrap` columns with `eol`,
+    `shift` ignorable characters in front (moves the 4-character group phase at every later buffer boundary),
+    optionally ignorable characters sprinkled in, padding kept or stripped.  -> (data, text) or None"""
+    def render(n):
+        body = base64.b64encode(bytes(n))          # length only
+        if not padded:
+            body = body.rstrip(b"=")
+        k = len(body)
+        nl = ((k - 1) // wrap) if (wrap and k) else 0
+        return shift + k + nl * len(eol)
+    n = (L * 3) // 4 + 3
+    n -= (n - r3) % 3
+    while n >= 0 and render(n) > L - (3 if inter else 0):
+        n -= 3
+    if n < 0:
+        return None
+    data = rbytes(rng, n)
+    body = base64.b64encode(data)
+    if not padded:
+        body = body.rstrip(b"=")
+    lines = [body[i:i + wrap] for i in range(0, len(body), wrap)] if wrap else [body]
+    text = bytearray(b" " * shift + eol.join(lines))
+    fill = L - len(text)
+    npad = len(body) - len(body.rstrip(b"="))
+    for _ in range(fill):                           # ignorable characters up to the exact length, not inside the padding
+        pos = rng.randrange(0, len(text) - npad + 1)
+        text.insert(pos, rng.choice(B64_SKIP) if inter else 10)
+    return data, bytes(text)
+
+
+def gen_b64_text_cases(rng, small, bufs, thorough):
+    out = []
+    stats = {"targets": 0}
+    # small texts: every small byte string, unpadded / one character per line / CRLF wrapped
+    for x in small[::1 if thorough else 3]:
+        b = bytes(x)
+        e = base64.b64encode(b)
+        out.append(Case("b64t", "small:nopad", [b, e.rstrip(b"=")]))
+        out.append(Case("b64t", "small:pad", [b, b"\n".join(e[i:i + 1] for i in range(len(e))) + b"\r\n"]))
+    for n in range(0, 65):
+        b = rbytes(rng, n)
+        e = base64.b64encode(b)
+        out.append(Case("b64t", "small:pad", [b, b"\r\n".join(e[i:i + 4] for i in range(0, len(e), 4))]))
+        out.append(Case("b64t", "small:nopad", [b, b" " + e.rstrip(b"=") + b"\n"]))
+    out.append(Case("b64t", "small:nopad", [b"", b"\r\n \t\n"]))
+    # texts whose length is B-3..B+3, 2B-3..2B+3, 3B-3..3B+3 for every decoder buffer size B
+    wraps = [76, 64, 1, 0]
+    eols = [b"\n", b"\r\n"]
+    for B in sorted(bufs["b64decode"]):
+        for k in (1, 2, 3):
+            for off in range(-3, 4):
+                L = k * B + off
+                combos = []
+                for shift in range(4):                  # every group phase at the boundary ...
+                    for padded in (True, False):        # ... with and without padding
+                        if off == 0 or thorough:
+                            for r3 in (1, 2, 0):
+                                combos.append((rng.choice(wraps), rng.choice(eols), padded, shift, rng.random() < 0.3, r3))
+                        else:
+                            combos.append((rng.choice(wraps), rng.choice(eols), padded, shift, rng.random() < 0.3, rng.choice((1, 2, 0))))
+                if off == 0 or thorough:                # every wrapping at the exact multiples
+                    for wrap in wraps:
+                        for eol in eols:
+                            combos.append((wrap, eol, rng.random() < 0.5, rng.randrange(4), False, rng.choice((1, 2))))
+                for wrap, eol, padded, shift, inter, r3 in combos:
+                    r = b64_text(rng, L, wrap, eol, padded, shift, inter, r3)
+                    if r is None:
+                        continue
+                    stats["targets"] += 1
+                    out.append(Case("b64t", "buf:%s" % ("pad" if padded else "nopad"), [r[0], r[1]]))
+    return out, stats
+
+
+def gen_buffer_cases(rng, bufs, thorough):
+    """encoder side: raw lengths around the multiples of the encoder's chunk sizes; quoted-printable lines"""
+    out = []
+    for B in sorted(bufs["b64encode"]):
+        for k in (1, 2, 3):
+            for off in range(-3, 4):
+                b = rbytes(rng, k * B + off)
+                out.append(Case("b64", "buf", [b, base64.b64encode(b)]))
+    # the port forms of the quoted-printable procedures (few: each call makes the library allocate 10^9 bytes)
+    for n in [0, 1, 2, 3, 24, 25, 26, 75, 76, 77, 300] + ([1000, 4096] if thorough else []):
+        out.append(Case("qpp", "empty" if n == 0 else "port", [rbytes(rng, n)]))
+        if n:
+            out.append(Case("qpp", "port", [bytes(rng.choice(b"abc =?_\r\n\t") for _ in range(n))]))
+    for B in sorted(bufs["qpline"]):
+        per = B // 3                                     # escapes per line
+        for shift in range(0, 4):                        # phase of the =XX triple at the line end
+            for m in sorted(set(sum([list(range(k * per - 3, k * per + 4)) for k in (1, 2, 3)], []))):
+                out.append(Case("qp", "long", [b"a" * shift + b"\xff" * m]))
+        for k in (1, 2, 3):
+            for off in range(-5, 5):
+                out.append(Case("qp", "long", [b"a" * (k * B + off)]))
+                out.append(Case("qp", "long", [bytes(97 + (i % 26) if (i % 11) else 61 for i in range(k * B + off))]))
+    return out
+
+
 CP_BOUNDS = [0, 1, 0x7F, 0x80, 0xFF, 0x100, 0x7FF, 0x800, 0xFFF, 0x1000, 0xD7FF, 0xE000, 0xFFFD, 0xFFFF,
              0x10000, 0x10001, 0x1F600, 0xFFFFF, 0x100000, 0x10FFFF]
 
@@ -433,7 +571,7 @@ def j_wrap(pos, strtok):
     return [[7], [9] + strtok[1:], [2], [8]]
 
 
-def gen_json_cases(rng, thorough):
+def gen_json_cases(rng, thorough, bufs):
     out = []
     nows = lambda: b""
     # one string feature at a time
@@ -474,6 +612,16 @@ def gen_json_cases(rng, thorough):
             out.append(Case("json", "struct", [toks, j_render(toks, lambda c: "raw", ws)]))
         out.append(Case("json", "struct", [toks, b" \n" + j_render(toks, lambda c: "raw", nows) + b"\n "]))
 
+    # strings around the sizes of the reader's string buffer (it starts with 128 bytes and doubles)
+    for B0 in sorted(bufs["jsonstring"]):
+        for B in (B0, 2 * B0, 4 * B0, 8 * B0):
+            for off in range(-7, 3):
+                for name, cp, style in (("plain", 97, "raw"), ("latin", 233, "raw"), ("bmp", 0x20AC, "raw"), ("astral", 0x1F600, "raw"),
+                                        ("nl", 10, "short"), ("latin", 233, "u"), ("astral", 0x1F600, "u")):
+                    cps = [97] * (B + off) + [cp, 98, cp]
+                    toks = [[4] + cps] if off % 2 else [[7], [9] + cps, [4] + cps, [8]]
+                    text = j_render(toks, lambda c: style if c == cp else "raw", nows)
+                    out.append(Case("json", "strbuf:%s/%s" % (name, style), [toks, text], feat=[name]))
     # seeded random values, depth <= 8
     pool = [c for _, c, _ in J_FEATURES] + [32, 48, 65, 122, 0x3BB, 0x4E2D]
 
@@ -862,13 +1010,19 @@ def run():
         if len(small) < 2000:
             raise Broken("small enumeration too small: %d" % len(small))
         # ---- cases
+        bufs = buffer_sizes()
+        chk.cov["buffer_sizes"] = {k: sorted(v) if isinstance(v, set) else v for k, v in bufs.items()}
         cases = []
         cases += gen_bytestring_cases(rng, small, chk.thorough)
+        tcases, tstats = gen_b64_text_cases(rng, small, bufs, chk.thorough)
+        cases += tcases
+        cases += gen_buffer_cases(rng, bufs, chk.thorough)
+        chk.cov["base64_texts_at_buffer_boundaries"] = tstats["targets"]
         cases += gen_utf_cases(rng, chk.thorough)
         cases += gen_acc_cases(rng, chk.thorough)
         cases += gen_uv_cases(rng, chk.thorough)
         cases += gen_int_cases(rng, chk.thorough)
-        cases += gen_json_cases(rng, chk.thorough)
+        cases += gen_json_cases(rng, chk.thorough, bufs)
         cases += gen_csv_cases(rng, chk.thorough)
         hostile = gen_hostile_cases(rng, chk.thorough)
         for i, c in enumerate(cases + hostile):
@@ -877,8 +1031,18 @@ def run():
         chunks = []                                  # (label, [cases])
         main = [c for c in cases if c.group == "main"]
         oob = [c for c in cases if c.group == "oobset"]
-        for i, ch in enumerate(vlib.chunks(main, 1200)):
-            chunks.append(("m%d" % i, ch))
+        cur, w = [], 0                               # chunks of bounded size and bounded input volume
+        nm = 0
+        for c in main:
+            wc = len(c.line())
+            if cur and (len(cur) >= 1200 or w + wc > 250_000):
+                chunks.append(("m%d" % nm, cur))
+                nm += 1
+                cur, w = [], 0
+            cur.append(c)
+            w += wc
+        if cur:
+            chunks.append(("m%d" % nm, cur))
         for i, ch in enumerate(vlib.chunks(oob, 16)):
             chunks.append(("o%d" % i, ch))
         # hostile input: per decoder, in several processes each (a damaged heap shows or not depending on
@@ -899,8 +1063,9 @@ def run():
         byid = {c.id: c for c in cases + hostile}
         henv = {"CHIBI_VERIF_POISON": "1"}
         t0 = time.time()
+        order = sorted(chunks, key=lambda lc: -sum(len(c.line()) for c in lc[1]))      # heavy chunks first
         ran = vlib.parallel(lambda lc: (lc[0], run_chunk(build, sc, lc[0], lc[1], henv if lc[0].startswith("h_") else None)),
-                            chunks, jobs=8)
+                            order, jobs=8)
         chk.cov["driver_seconds"] = round(time.time() - t0, 1)
         chk.cov["driver_processes"] = sum(x[1][1] for x in ran)
         chk.cov["slowest_chunks"] = sorted(((v, k) for k, v in TIMES.items()), reverse=True)[:8]
@@ -1003,7 +1168,7 @@ def run():
                            "(kind, class, input), non-trivial = input not the empty string")
         if accepted < 1000:
             raise Broken("only %d cases accepted: vacuous run" % accepted)
-        for k in ("b64", "qp", "uri", "utf", "acc", "uv", "int", "hex", "json", "csv", "h"):
+        for k in ("b64", "b64t", "qp", "qpp", "uri", "utf", "acc", "uv", "int", "hex", "json", "csv", "h"):
             if kinds.get(k, 0) == 0:
                 raise Broken("no cases of kind %s" % k)
         seen = set()
